@@ -93,6 +93,7 @@ def run(ctx):
     rule_dsusable(ctx, F)
     rule_optout(ctx, F)
     rule_algs(ctx, F)
+    rule_qany(ctx, F)
 
 
 def rule_sig(ctx, F):
@@ -1088,3 +1089,42 @@ def rule_algs(ctx, F):
            "supported_algorithm accepts %s but every compiled backend (%s) also verifies %s: a correctly signed zone that uses "
            "one of these (ECDSAP384SHA384 = 14, ED25519 = 15) is treated as unsigned -- its answers come back insecure instead of "
            "secure, and forged answers are accepted as insecure" % (sorted(acc), ", ".join(sorted(backs)), sorted(every - acc)), sb.where())
+
+
+def rule_qany(ctx, F):
+    """A correctly signed answer to QTYPE ANY is an answer: get_answer_state, which picks the RRset that answers the
+    question, does not demand `rtype == qtype` on every way to its result -- there is a way in for the meta type ANY
+    (255), and the type is still compared for every other query type."""
+    R = "C14.qany"
+    ctx.floor(R, 1)
+    b = F.one_body(r"^dnssec::validator::utilities::get_answer_state$")
+    if not ctx.anchor(R, "utilities::get_answer_state", b):
+        return
+    sites = []
+    for bi in sorted(b.reachable_blocks()):
+        for st in b.blocks[bi]["s"]:
+            if st[0] == "=" and st[2][0] == "agg" and st[2][1][0] == "adt" and st[2][1][1] == "core::option::Option" and "Some" in str(st[2][1][2:]):
+                sites.append(bi)
+    cmps = [bb for bb, t in b.calls() if re.search(r"PartialEq(<.*>)?::(eq|ne)$", t["fn"] or "")
+            and any(_has_call(deep_strip(b.term_of_operand(a)), r"ValidatedGroup::rtype$") for a in t["args"])]
+    if not ctx.anchor(R, "the answer found (Some) and the type comparison in get_answer_state", len(sites) >= 1 and len(cmps) >= 1, b.where()):
+        return
+    for bi in sites:
+        forced = False
+        for l, r in _eq_facts(b, bi, F):
+            for x, y in ((l, r), (r, l)):
+                if _has_call(x, r"ValidatedGroup::rtype$") and _arg_roots(y) == {3}:
+                    forced = True
+        mentions_any = False
+        for bb, t in b.calls():
+            for a in t["args"]:
+                if const_value(deep_strip(b.term_of_operand(a))) == 255:
+                    mentions_any = True
+        for bi2 in b.reachable_blocks():
+            t2 = b.blocks[bi2]["t"]
+            if t2["k"] == "switch" and any(v == 255 for v, _ in t2["v"]):
+                mentions_any = True
+        ctx.ob(R, b, "QTYPE ANY has a way to its answer", (not forced) and mentions_any,
+               "get_answer_state finds an answer only under `group.rtype() == qtype`%s: for QTYPE ANY no RRset ever matches, the "
+               "reply is then judged as a negative answer without SOA, and a correctly signed ANY answer is reported bogus"
+               % ("" if forced else " (and never looks at Rtype::ANY)"), b.where(bi))
